@@ -144,6 +144,12 @@ impl MemRegionBitmap for AtomicBitmapMmap {
             return Err(io::Error::from(io::ErrorKind::InvalidData));
         }
 
+        // The bitmap tracks whole pages: the page arithmetic below would attribute writes to the
+        // wrong page, or drop them, for a region that does not start and end on a page boundary.
+        if region_start_addr % LOG_PAGE_SIZE != 0 || region_len % LOG_PAGE_SIZE != 0 {
+            return Err(io::Error::from(io::ErrorKind::InvalidData));
+        }
+
         // The size of the log should be large enough to cover all known guest addresses.
         let region_end_addr = region_start_addr
             .checked_add(region_len - 1)
